@@ -14,7 +14,7 @@ Requests (TAB-separated fields):
                                                 -> ok TAB <fields> TAB <tz> | err:<Name>
   roundtrip     <fields> <tz> <leap 0|1> <lookup>     (marshall, second := 60 if leap, unmarshall)
   roundtrip_now <state> <fields of the override instant> <leap> <lookup>
-                                                -> <fields> TAB <tzentry> TAB <unmarshall reply>
+                                                -> <fields> TAB <tzentry> TAB <unmarshall reply> TAB re:<fields> TAB <tzentry> | … TAB re:-
 <dt>      = n:<loc> | a:<loc>:<off>         (microseconds)
 <secs>    = <num>/<den>
 <op>      = set <t> | advd <d> | advs <secs> | clear | now <0|1> | ts <0|1>
@@ -110,7 +110,12 @@ def showUnm : Except Err Stamp → String
 /-- marshall, optionally put a leap second into the record, unmarshall -/
 def roundtrip (m : Marshalled) (leap : Bool) (lk : Option Err) : String :=
   let m' : Marshalled := if leap then { m with f := { m.f with second := 60 } } else m
-  showMarshalled m ++ "\t" ++ showUnm (unmarshall (fun _ => lk) m')
+  let r := unmarshall (fun _ => lk) m'
+  -- … and marshall the result again (meaningful when the result's tzname(None) is its key: naive, UTC)
+  let re := match r with
+    | .ok s => "re:" ++ showMarshalled (marshall s)
+    | .error _ => "re:-"
+  showMarshalled m ++ "\t" ++ showUnm r ++ "\t" ++ re
 
 def handle : List String → String
   | ["norm", d] =>
